@@ -1355,6 +1355,9 @@ func (r *Runner) Step(i int, a *Action) (err error) {
 			n = 2200
 		}
 		span := 40 + a.Sel%60
+		if a.Sel%3 == 0 {
+			span = 100000 // every write creates a new key: an event dropped on the full buffer is an add
+		}
 		var berr error
 		call(func() {
 			for j := 0; j < n; j++ {
